@@ -1,5 +1,5 @@
-(* C03 -- JSON output decodes back to the value that was output (JSON is proved end to end:
-   mapping layer + text layer; see DESIGN for the YAML/TOML status). *)
+(* C03 -- JSON and TOML output decode back to the value that was output (both proved end to end: mapping layer + text
+   layer; TOML re-models the third-party serializer toml-rs 0.5.11 byte for byte; see DESIGN for the YAML status). *)
 From Ucg Require Import data.Val data.Json data.MapJson data.Json_Lemmas data.MapJson_Lemmas.
 
 (* text layer: the pretty printer's output is read back by an independent RFC 8259 parser *)
@@ -23,3 +23,66 @@ Proof. exact MapJson_Lemmas.to_json_error_iff. Qed.
 (* integers are written as numbers of the same value *)
 Theorem int_text_value : forall z, num_value (dec_of_Z z ++ b ".0") = Some (z * 10, -1)%Z.
 Proof. exact MapJson_Lemmas.num_value_int. Qed.
+
+(* ------------------------------------------------------------------ TOML ------------------------------------------------
+   data/Toml.v: the converter (src/convert/toml.rs), the pretty serializer of toml-rs 0.5.11 as reached from a Value
+   (value.rs + ser.rs), an independent TOML reader, and the data the property says must come back. *)
+From Ucg Require Import data.Toml data.Toml_Err data.Toml_Doc data.Toml_Lemmas.
+
+(* every byte string is written as a string token (literal, multi-line literal, basic or multi-line basic) that reads back as itself *)
+Theorem toml_string_roundtrip : forall s rest, follow_ok rest = true -> parse_string (emit_value_str s ++ rest) = Some (s, rest).
+Proof. exact Toml_Lemmas.toml_string_roundtrip. Qed.
+
+(* every key (empty included), bare or quoted *)
+Theorem toml_key_roundtrip : forall k rest, key_follow_ok rest -> parse_key (escape_key k ++ rest) = Some (k, rest).
+Proof. exact Toml_Lemmas.toml_key_roundtrip. Qed.
+
+(* every i64 is written as an integer token of the same value *)
+Theorem toml_int_roundtrip : forall z rest, in_i64 z = true -> tok_follow_ok rest ->
+    parse_scalar (dec_of_Z z ++ rest) = Some (DInt z, rest).
+Proof. exact Toml_Lemmas.toml_int_roundtrip. Qed.
+
+(* a finite float (given by Rust's Display text) is written as a FLOAT token -- never an integer, date or boolean token --
+   denoting the same decimal *)
+Theorem toml_float_text : forall t neg i fd rest,
+    rust_float_parts t = Some (neg, i, fd) -> tok_follow_ok rest ->
+    let d := mk_fin neg (digits_val (i ++ fd)) (- Z.of_nat (List.length fd))%Z in
+    parse_scalar (float_text (TFin t) ++ rest) = Some (DFloat d, rest) /\ spec_float (FFin t) = Some d.
+Proof. exact Toml_Lemmas.toml_float_text. Qed.
+
+(* conversion fails exactly for the values TOML cannot hold (NULL or a constraint anywhere, a root that is not a tuple, and the
+   serializer's own ValueAfterTable cases); no assertion of the serializer can fire *)
+Theorem to_toml_error_iff : forall v, (exists e, toml_output v = TErr e) <-> unrepresentable_toml v = true.
+Proof. exact Toml_Lemmas.to_toml_error_iff. Qed.
+
+Theorem toml_output_no_panic : forall v, toml_output v <> TErr EPanic.
+Proof. exact Toml_Err.toml_output_no_panic. Qed.
+
+(* end to end: for every value whose arrays are either table-free or arrays of tables directly under a key (nested tables and
+   arrays of tables included), the text written parses, and to the data of the value (first binding of duplicate keys) *)
+Theorem toml_doc_roundtrip : forall v t out,
+    val_wf v = true -> to_toml v = TOk t -> good t = true -> toml_emit t = TOk out ->
+    exists d, toml_parse out = Some d /\ spec_data v = Some (doc_canon d).
+Proof. exact Toml_Lemmas.toml_doc_roundtrip. Qed.
+
+Theorem toml_good_total : forall v t,
+    val_wf v = true -> to_toml v = TOk t -> is_table t = true -> good t = true ->
+    exists out d, toml_emit t = TOk out /\ toml_parse out = Some d /\ spec_data v = Some (doc_canon d).
+Proof. exact Toml_Doc.toml_good_total. Qed.
+
+(* outside that class the property is FALSE of the code (known finding C03-toml-mixed-array): the witnesses *)
+Theorem toml_mixed_array_refuted :
+  unrepresentable_toml ex_mixed = false /\
+  toml_output ex_mixed
+  = TOk (b "a = [" ++ [nl] ++ b "    1" ++ [nl] ++ b "[[a]]" ++ [nl] ++ b "b = 2" ++ [nl] ++ b "," ++ [nl] ++ b "]" ++ [nl]) /\
+  (forall o, toml_output ex_mixed = TOk o -> toml_parse o = None) /\
+  match to_toml ex_mixed with TOk t => good t | TErr _ => true end = false.
+Proof. exact Toml_Lemmas.toml_mixed_array_refuted. Qed.
+
+Theorem toml_nested_table_array_alters :
+  unrepresentable_toml ex_altered = false /\
+  toml_output ex_altered = TOk (b "[[a]]" ++ [nl] ++ b "b = 1" ++ [nl] ++ b "[[a]]" ++ [nl] ++ b "c = 2" ++ [nl]) /\
+  (forall o, toml_output ex_altered = TOk o ->
+     toml_parse o = Some (DTab [(b "a", DArr [DTab [(b "b", DInt 1)]; DTab [(b "c", DInt 2)]])])) /\
+  spec_data ex_altered = Some (DTab [(b "a", DArr [DTab [(b "b", DInt 1)]; DArr [DTab [(b "c", DInt 2)]]])]).
+Proof. exact Toml_Lemmas.toml_nested_table_array_alters. Qed.
